@@ -540,6 +540,10 @@ partial def loop (h : IO.FS.Stream) (s : St) : IO Unit := do
                for k in missing do
                  printVios (s.sc ++ "~") s.line
                    ([⟨"C01", "notSelected", [], s!"bus {A.bus} event {A.ev}: handler {k} matches the event and has no result on it, but is not among the handlers selected for its processing"⟩] ++
+                    -- (C07: "the results of all buses' handlers accumulate on it" - the event has been on another bus before)
+                    (if (s.w.ev A.ev).path.length > 1 then
+                       [⟨"C07", "handlerLeftOutOnLaterBus", [], s!"bus {A.bus} event {A.ev} (path {(s.w.ev A.ev).path}): handler {k} of this bus is not run for the event that reached it after another bus: its result does not accumulate on the event"⟩]
+                     else []) ++
                     (match (s.w.bus A.bus).handlers.find? (fun r => r.hid == k) with
                      | some r => (match r.kind with
                        | .expect x _ => [⟨"C18", "subscriberNotSelected", [], s!"bus {A.bus} event {A.ev}: the temporary handler of the pending expect() of task {x} is not selected for the event: the call never sees it"⟩]
